@@ -15,7 +15,7 @@ T = {
     "T13": "T13 machine arithmetic is verified as machine arithmetic (overflow checked by Verus); usize is assumed to be 64 bits (global size_of usize == 8)",
     "T14": "T14 Vec::with_capacity(n) is redirected (rule R-prealloc) to a wrapper that requires n <= number of input bytes present: the resource contract behind C07.prealloc; allocator behaviour for such n is trusted",
     "T4b": "T4b shim BytesMut (same method names as bytes::BytesMut): with_capacity/is_empty/advance/`&b[..]` over a Seq<u8> view; advance carries its panic condition as a precondition",
-    "T6": "T6 Connection::write_decimal (R-stub-body; `write!` is outside Verus's subset) writes the canonical decimal text of its i64 argument; bounded stand-in: Kani harness on the verbatim body (thorough tier), never counted as proved",
+    "T6": "T6 Connection::write_decimal (R-stub-body; `write!` is outside Verus's subset) writes the canonical decimal text of its i64 argument; bounded stand-in (thorough tier, never counted as proved): 10^7 values (all powers of ten and two with neighbours, extremes, pseudo-random) through the real write_frame(Integer(v)) against an independent decimal conversion. Kani on the verbatim body did not finish in 15 minutes (core::fmt), so no Kani result is claimed",
     "T7": "T7 shim tokio::io::BufWriter<S>: write_u8/write_all append to a ghost output on Ok, flush marks it delivered, read_buf moves a NONDETERMINISTIC non-empty prefix of the ghost incoming stream into the buffer (0 exactly at end of stream); I/O errors possible at every call unless the ghost flag healthy() holds",
     "T13b": "T13b a slice / Vec of Frame holds at most isize::MAX elements; a Bytes holds at most isize::MAX bytes; every String is valid UTF-8",
     "T8": "T8 shim DashMap (finite map; insert/remove/get/entry().or_default(); R-dashmap-iter enumerates some duplicate-free key list), RefCell::borrow_mut never fails, AtomicCell<bool>, parking_lot::Mutex::lock and crossbeam ArrayQueue hand out objects satisfying their invariant w.r.t. the current World (rely half of rely/guarantee; pool occupancy is a ghost counter in the World), BTreeSet<u64>",
